@@ -51,7 +51,7 @@ LEVEL_NOTE = ("Not a proof of mode equivalence: numba's type unification, typed 
               "behaviour is undefined (a subscript outside its array inside a kernel: spans that decrease or end beyond the column, an "
               "index beyond the column handed to an unchecked ops.* kernel, a destination that is too short, result[-1] of an empty "
               "array) are not generated; a difference only in the class of the exception raised for a call with an argument of a type the "
-              "API does not accept is not generated either. c11x cases are BATCHES of up to 10 (quick) / 24 (thorough) sub-cases that "
+              "API does not accept is not generated either. c11x cases are BATCHES of up to 10 (quick) / 24 (thorough) sub-cases (6 / 8 for the families that compile many kernels per case) that "
               "call the same kernels at the same numba signatures, so that one worker compiles each signature; a batch differs iff one of "
               "its sub-cases does (`python -m checks.harness.c11x <replay.json>` prints the differing sub-cases).")
 RULE = ("cases of the owning properties' generators (seeded sample per property) executed in both modes; a case counts as non-trivial "
